@@ -238,9 +238,13 @@ func c08Exec(sc c08Scenario, kind string, trigger int, timeoutFlavour bool, clie
 				resp.Body.Close()
 			}
 		}()
-		// the busy request owns the connection once the peer saw its dial
-		c08WaitFor(c08Bound, func() bool { return atomic.LoadInt32(&d.n) >= 1 })
-		time.Sleep(20 * time.Millisecond)
+		// the busy request owns the only connection once the peer has its request
+		select {
+		case <-h1.held:
+		case <-time.After(c08HardLimit):
+			o.hung, o.err = true, fmt.Errorf("the busy request never reached the peer")
+			return
+		}
 	} else {
 		close(holdDone)
 	}
@@ -383,7 +387,7 @@ func c08Exec(sc c08Scenario, kind string, trigger int, timeoutFlavour bool, clie
 	run.mu.Lock()
 	bodies := append([]*c08Body(nil), run.bodies...)
 	run.mu.Unlock()
-	c08WaitFor(c08Bound/2, func() bool {
+	c08WaitFor(c08Bound/4, func() bool {
 		for _, b := range bodies {
 			if atomic.LoadInt32(&b.closes) == 0 {
 				return false
@@ -623,7 +627,7 @@ func c08Line(o c08Obs) (line, impl string) {
 }
 
 func c08Scenarios(proto string) []c08Scenario {
-	iv := 300 * time.Millisecond
+	iv := time.Duration(verifh.N(150, 300)) * time.Millisecond
 	l := []c08Scenario{
 		{name: "fresh", proto: proto, down: 1},
 		{name: "reused", proto: proto, down: 1, reused: true},
@@ -643,6 +647,12 @@ func c08Scenarios(proto string) []c08Scenario {
 	}
 	if proto == "h1" {
 		l = append(l, c08Scenario{name: "waitconn", proto: proto, down: 1, waitConn: true})
+	}
+	if verifh.Thorough() {
+		l = append(l,
+			c08Scenario{name: "upload-long", proto: proto, up: 12, down: 2},
+			c08Scenario{name: "download-long", proto: proto, down: 14, reused: true},
+			c08Scenario{name: "retry-twice", proto: proto, up: 1, down: 2, failFirst: 2, maxRetries: 3, interval: iv})
 	}
 	return l
 }
